@@ -230,6 +230,7 @@ impl<T: Socket + ?Sized> Worker<T> {
                     }) => {
                         if received_block_number == block_number.wrapping_add(1) {
                             block_number = received_block_number;
+                            retry_cnt = 0;
                             size = data.len();
                             window.add(data)?;
 
